@@ -695,6 +695,7 @@ static int state_sync_process(struct snapraid_state* state, struct snapraid_pari
 	unsigned waiting_mac;
 	char esc_buffer[ESC_MAX];
 	bit_vect_t* block_enabled;
+	int io_stopped;
 
 	/* the sync process assumes that all the hashes are correct */
 	/* including the ones from CHG and DELETED blocks */
@@ -769,6 +770,7 @@ static int state_sync_process(struct snapraid_state* state, struct snapraid_pari
 
 	/* start all the worker threads */
 	io_start(&io, blockstart, blockmax, block_enabled);
+	io_stopped = 0;
 
 	if (!state_progress_begin(state, blockstart, blockmax, countmax))
 		goto end;
@@ -1359,6 +1361,33 @@ end:
 
 	state_usage_print(state);
 
+	/* stop all the worker threads, waiting for the completion */
+	/* of the parity writes still queued */
+	io_stop(&io);
+	io_stopped = 1;
+
+	/* count the errors of the latest parity writes, the ones completed */
+	/* after the last io_write_next() and then not yet reported */
+	{
+		int writer_error[IO_WRITER_ERROR_MAX];
+
+		io_write_flush_errors(&io, writer_error);
+
+		for (j = 0; j < IO_WRITER_ERROR_MAX; ++j) {
+			if (writer_error[j]) {
+				switch (j + IO_WRITER_ERROR_BASE) {
+				case TASK_STATE_IOERROR_CONTINUE :
+				case TASK_STATE_IOERROR :
+					++io_error;
+					break;
+				default :
+					++error;
+					break;
+				}
+			}
+		}
+	}
+
 	/* before returning we ensure that */
 	/* the parity is really written flushing the disk cache */
 	for (l = 0; l < state->level; ++l) {
@@ -1408,7 +1437,8 @@ end:
 
 bail:
 	/* stop all the worker threads */
-	io_stop(&io);
+	if (!io_stopped)
+		io_stop(&io);
 
 	for (j = 0; j < diskmax; ++j) {
 		struct snapraid_file* file = handle[j].file;
